@@ -14,7 +14,7 @@ RULE = ("P producer threads x K callFromThread calls each against a reactor thre
         "all schedules with at most B preemptions are run; the harness's doIteration blocks (in the scheduler) until the real waker pipe "
         "is readable, so a lost wake-up is a deadlock. non-trivial = distinct schedules in which a producer ran between two lines of "
         "runUntilCurrent's thread-queue block or the reactor ran between two lines of a callFromThread")
-BOUNDS = {"quick": "2 producers x 1 call, 1 producer x 2 calls, 1 producer x 3 calls; <= 2 preemptions each",
+BOUNDS = {"quick": "2 producers x 1 call, 1 producer x 2 calls, 1 producer x 3 calls; <= 2 preemptions each; asyncio reactor: all interleavings of 2 producers x 2 calls with loop steps over a model event loop (ticking and frozen clock)",
           "thorough": "2x2 with <= 2 and <= 3 preemptions; 3x2 and 2x3 with <= 2; 3x1 with <= 3"}
 ASSUMPTIONS = ["one Python source line is atomic (the code relies only on list.append / del slice atomicity under the GIL)",
                "real select/poll/epoll are replaced by the harness's doIteration, which reads readiness of the real waker pipe; what is decided is the Twisted-side queue+waker protocol",
@@ -158,3 +158,154 @@ def run_shard(shard, tier, seed):
 
 def replay(w):
     return run_one(Chooser(w["schedule"]), *w["config"])[0]
+
+
+# ---------------------------------------------------------------------------------------------
+# asyncio configuration.  AsyncioSelectorReactor.callFromThread hands a closure to the loop's
+# call_soon_threadsafe (one atomic append from the producer's point of view); everything else
+# (callLater(0), _reschedule, _onTimer, runUntilCurrent) runs on the loop thread.  The shared
+# state is therefore only the loop's thread-safe queue, and the interleavings that matter are
+# "which producer appends next / the loop runs one ready callback / the loop fires the due timer",
+# enumerated exhaustively with mc.choice against a model event loop with a harness clock.
+class _Handle:
+    def __init__(self, when, cb):
+        self.when, self.cb, self.cancelled = when, cb, False
+
+    def cancel(self):
+        self.cancelled = True
+
+
+class _ModelLoop:
+    def __init__(self, tick):
+        self.now = 50.0
+        self.tick = tick     # every reading of the clock advances it by this much (0 = frozen clock)
+        self.ready = []      # callbacks queued by call_soon / call_soon_threadsafe
+        self.timers = []
+        self.jumps = 0
+
+    def time(self):
+        self.now += self.tick
+        return self.now
+
+    def call_soon_threadsafe(self, cb, *a):
+        self.ready.append(lambda: cb(*a))
+
+    call_soon = call_soon_threadsafe
+
+    def call_at(self, when, cb, *a):
+        h = _Handle(when, lambda: cb(*a))
+        self.timers.append(h)
+        return h
+
+    def call_later(self, delay, cb, *a):
+        return self.call_at(self.now + delay, cb, *a)
+
+    def add_reader(self, *a): pass
+    def remove_reader(self, *a): return True
+    def add_writer(self, *a): pass
+    def remove_writer(self, *a): return True
+    def stop(self): pass
+    def is_running(self): return True
+
+
+def run_asyncio(ch, nprod, ncalls, tick=2 ** -20):
+    from twisted.internet.asyncioreactor import AsyncioSelectorReactor
+    loop = _ModelLoop(tick)
+
+    class R(AsyncioSelectorReactor):
+        def installWaker(self):
+            pass
+
+        def seconds(self):
+            return loop.time()
+
+    r = R(loop)
+    ran, bad = [], []
+    todo = [list(range(ncalls)) for _ in range(nprod)]
+    steps = 0
+    while steps < 200:
+        steps += 1
+        live = [t for t in loop.timers if not t.cancelled]
+        due = [t for t in live if t.when <= loop.now]
+        menu = [("prod", p) for p in range(nprod) if todo[p]]
+        if loop.ready:
+            menu.append(("ready",))
+        if due:
+            menu.append(("timer",))
+        if not menu:
+            if live:
+                # idle loop: time passes until the next timer
+                nxt = min(t.when for t in live)
+                if nxt - loop.now > 0.5:
+                    loop.jumps += 1
+                loop.now = max(loop.now, nxt)
+                continue
+            break
+        ev = menu[ch.choose(len(menu), "asyncio-step", free=True)]
+        if ev[0] == "prod":
+            p = ev[1]
+            i = todo[p].pop(0)
+            r.callFromThread(lambda p=p, i=i: ran.append((p, i, loop.now)))
+        elif ev[0] == "ready":
+            loop.ready.pop(0)()
+        else:
+            t = min(due, key=lambda t: t.when)
+            loop.timers.remove(t)
+            t.cb()
+    total = nprod * ncalls
+    seen = {}
+    for p, i, when in ran:
+        seen[(p, i)] = seen.get((p, i), 0) + 1
+    for k, n in seen.items():
+        if n > 1:
+            bad.append(("asyncio:call-ran-twice", "%r ran %d times" % (k, n)))
+    if len(seen) < total:
+        missing = [(p, i) for p in range(nprod) for i in range(ncalls) if (p, i) not in seen]
+        bad.append(("asyncio:call-lost-or-stalled", "calls %r never ran although the loop went idle (no ready callback, no timer)" % (missing,)))
+    for p in range(nprod):
+        order = [i for (pp, i, w) in ran if pp == p]
+        if order != sorted(order):
+            bad.append(("asyncio:per-thread-order-violated", "producer %d calls ran in order %r" % (p, order)))
+    if loop.jumps:
+        bad.append(("asyncio:call-not-run-promptly", "the loop had to sleep %d time(s) before a queued call ran: %r" % (loop.jumps, ran)))
+    if tick == 0:
+        # a clock that does not advance between two callLater(0) calls (coarse clocks) is a separate, recorded case
+        bad = [(sig + ":when-the-clock-does-not-advance-between-calls", d) for sig, d in bad]
+    return bad, tuple((p, i) for p, i, w in ran), steps
+
+
+_orig_shards, _orig_run_shard, _orig_replay = shards, run_shard, replay
+
+
+def shards(tier, seed):
+    out = _orig_shards(tier, seed)
+    for tick in (2 ** -20, 0):
+        out.append(("asyncio", 2, 2, tick) if tier == "quick" else ("asyncio", 3, 2, tick))
+    return out
+
+
+def run_shard(shard, tier, seed):
+    if shard[0] != "asyncio":
+        return _orig_run_shard(shard, tier, seed)
+    _, np_, nc, tick = shard
+    st = Stats()
+    seen = set()
+    for ch, (bad, order, steps) in explore(lambda c: run_asyncio(c, np_, nc, tick), None):
+        st.evaluations += 1
+        st.states += steps
+        st.transitions += steps
+        st.traces += 1
+        st.count("asyncio_interleavings")
+        st.nt(("asyncio", tuple(ch.choices)))
+        st.outcome("asyncio-order:" + repr(order)[:60])
+        for sig, d in bad:
+            if sig not in seen:
+                seen.add(sig)
+                st.violation(sig, {"what": d}, {"asyncio": [np_, nc, tick], "schedule": ch.choices})
+    return st
+
+
+def replay(w):
+    if "asyncio" in w:
+        return run_asyncio(Chooser(w["schedule"]), *w["asyncio"])[0]
+    return _orig_replay(w)
